@@ -3,7 +3,7 @@ the host production's action (reference evaluator in inlined order)."""
 import copy
 import json
 
-from .. import core, gen, gen3, gmodel, pipeline
+from .. import core, earley, gen, gen3, gmodel, pipeline
 from ..subject import CONFIGS
 
 ALL_TAGS = [c[0] for c in CONFIGS]
@@ -43,46 +43,107 @@ def _segments(events, inline_pids):
     return heads, runs
 
 
-def f13_matcher(case, full_expected, got_events, complete):
+def _diverges(paths):
+    """True when two events of one host production come from DISTINCT inlined nonterminals that
+    occur in the same (host or inlined) production: their paths through the inlined nodes share a
+    prefix and then continue with different nonterminal names."""
+    for i in range(len(paths)):
+        for j in range(i + 1, len(paths)):
+            p, q = paths[i], paths[j]
+            for d in range(min(len(p), len(q))):
+                if p[d] != q[d]:
+                    if p[d][1] != q[d][1]:
+                        return True
+                    break
+    return False
+
+
+def _blocks(exp_run, exp_orig):
+    """split one expected inline run into blocks of events that belong to the same host reduction"""
+    out = []
+    for p, (h, path) in zip(exp_run, exp_orig):
+        if out and out[-1][0] == h:
+            out[-1][1].append(p)
+            out[-1][2].append(path)
+        else:
+            out.append((h, [p], [path]))
+    return out
+
+
+def f13_matcher(case, full_expected, full_origins, got_events, complete):
     """F13: the action log differs from the reference only by the order of actions of DISTINCT
-    #[inline] nonterminals that were inlined into the same production (the inliner nests one
-    wrapper per inlined nonterminal, so they run in reverse inlining order, not left to right).
-    `complete`: the observed run did not stop at a failing action."""
+    inlined nonterminals (user #[inline] ones, or the anonymous ones behind `(..)` and `?`) that
+    were inlined into the same production: the inliner nests one wrapper per inlined nonterminal,
+    so they run in reverse inlining order, not left to right.  Signature: non-inline actions in the
+    reference order; per host reduction the same multiset of inlined actions; every host whose
+    inlined actions are permuted has two of them coming from distinct inlined nonterminals of one
+    production.  `complete`: the observed run did not stop at a failing action."""
     pid_nt = {a.pid: nt.name for nt in case.g.nts for a in nt.alts if a.pid is not None}
     inline_pids = {p for p, n in pid_nt.items() if case.g.nt(n).inline}
     he, re_ = _segments(full_expected, inline_pids)
     hg, rg = _segments(got_events, inline_pids)
+    # origins of the expected inline runs, aligned with re_
+    ro = [[]]
+    for p, o in zip(full_expected, full_origins):
+        if p in inline_pids:
+            ro[-1].append(o)
+        else:
+            ro.append([])
+
+    def run_ok(exp_run, exp_orig, got_run, partial=False):
+        """-> None (not explained by F13) | False (equal) | True (differs, explained)"""
+        differ = False
+        pos = 0
+        for (h, pids, paths) in _blocks(exp_run, exp_orig):
+            g = got_run[pos:pos + len(pids)]
+            pos += len(pids)
+            if partial and len(g) < len(pids):
+                rest = list(pids)
+                for x in g:
+                    if x not in rest:
+                        return None
+                    rest.remove(x)
+                if g != pids[:len(g)]:
+                    if not _diverges(paths):
+                        return None
+                    differ = True
+                if pos < len(got_run):
+                    return None
+                return differ
+            if g != pids:
+                if sorted(g) != sorted(pids) or not _diverges(paths):
+                    return None
+                differ = True
+        if pos != len(got_run):
+            return None
+        return differ
+
     if complete:
         if he != hg or len(re_) != len(rg):
             return False
         differ = False
-        for a, b in zip(re_, rg):
-            if a != b:
-                if sorted(a) != sorted(b) or len({pid_nt[p] for p in a}) < 2:
-                    return False
-                differ = True
+        for a, o, b in zip(re_, ro, rg):
+            r = run_ok(a, o, b)
+            if r is None:
+                return False
+            differ = differ or r
         return differ
     # stopped at a failure: observed log must be consistent with a reordering of the last run
     if hg != he[:len(hg)] or len(rg) != len(hg) + 1:
         return False
     differ = False
-    for a, b in zip(re_[:len(rg) - 1], rg[:-1]):
-        if a != b:
-            if sorted(a) != sorted(b) or len({pid_nt[p] for p in a}) < 2:
-                return False
-            differ = True
-    exp_last = list(re_[len(rg) - 1]) if len(rg) - 1 < len(re_) else []
-    got_last = rg[-1]
-    rest = list(exp_last)
-    for p in got_last:
-        if p not in rest:
+    for a, o, b in zip(re_[:len(rg) - 1], ro[:len(rg) - 1], rg[:-1]):
+        r = run_ok(a, o, b)
+        if r is None:
             return False
-        rest.remove(p)
-    if got_last != exp_last[:len(got_last)]:
-        if len({pid_nt[p] for p in exp_last}) < 2:
-            return False
-        differ = True
-    return differ
+        differ = differ or r
+    li = len(rg) - 1
+    exp_last = list(re_[li]) if li < len(re_) else []
+    org_last = list(ro[li]) if li < len(ro) else []
+    r = run_ok(exp_last, org_last, rg[-1], partial=True)
+    if r is None:
+        return False
+    return differ or r
 
 
 def run(tier, seed):
@@ -172,7 +233,9 @@ def run(tier, seed):
                 full = oracle(pipeline.Exec(ev.case, ev.start, ev.toks, ev.gap, ev.tag, fails=None))
                 if full.accepted and full.tree is not None and full.eval[0] == "ok":
                     got = [x[1] for x in pipeline.parse_events(rv["ev"]) if x[0] == "a"]
-                    is_f13 = f13_matcher(ev.case, full.eval[2], got, complete=("ok" in rv["r"]))
+                    fe, fo = earley.evaluate_origins(full.tree, full.kinds, (), spans=full.spans,
+                                                     inline_nts=getattr(ev.case.cfg, "inline_nts", ()))
+                    is_f13 = f13_matcher(ev.case, fe, fo, got, complete=("ok" in rv["r"]))
                     m = (lambda k, w_: k.get("id") == "F13" and is_f13)
             chk.violation(w, m)
         # (1) differential: acceptance, value, user error
